@@ -744,7 +744,7 @@ def run_case(prop, case, res):
     if (len(case["prog"]) + t) % 3 == 0:
         from ..common import with_alarm, AlarmTimeout
 
-        sb = make_riscv("five", hz=hz, dcache=case.get("dcache"), icache=case.get("icache"))
+        sb = make_riscv("five", hz=hz, dcache=case.get("dcache"), icache=case.get("icache"), via=getattr(sim, "_vp_via", None))  # built the way the observed one was
         install_program(sb, case["prog"])
         set_regs(sb, case["regs"])
         preload_mem(sb, case["mem"])
